@@ -12,6 +12,7 @@ import (
 	"path/filepath"
 	"sort"
 	"strings"
+	"sync"
 	"time"
 	"unicode/utf8"
 
@@ -517,9 +518,103 @@ func init() {
 				{Name: "codec", N: c.Pick(130, 1300), Fn: c18Codec},
 				{Name: "built_messages", N: 1, Workers: 1, Fn: c18BuiltHelper(c.Pick(260, 2600))},
 				{Name: "harvested_replies", N: c.Pick(600, 6000), Fn: c18Harvest},
+				{Name: "messages_built_side_by_side", N: c.Pick(12, 120), Fn: c18SideBySide},
 				{Name: "metadata_documents", N: c.Pick(120, 1200), Fn: c18Metadata},
 			}
 		},
 		After: func(c *Ctx) { verify.Py.Close() },
 	})
+}
+
+// c18SideBySide: eight clients complete logins of eight different users on one provider at the same time while two
+// more keep asking for metadata and sending attribute queries. Every Success message decodes to the values that were
+// put in for ITS user: each attribute value carries its user's canary, the NameID is the user's name.
+func c18SideBySide(r *core.Run, idx int, rng *rand.Rand) {
+	const wl = "messages_built_side_by_side"
+	e := env.Static(env.Opts{})
+	e.W.NoLog = true
+	d := stdSP(0)
+	mustRegister(e.W, d, "a")
+	type sess struct {
+		sc     *cbScenario
+		canary string
+	}
+	var ss []sess
+	for g := 0; g < 8; g++ {
+		canary := fmt.Sprintf("MK%dg%dx", idx, g)
+		sc := randScenario(rng, canary, false)
+		sc.Host = ""
+		sc.S.Binding = []string{spsim.BindPost, spsim.BindRedirect}[g%2]
+		sc.install(e.W)
+		ss = append(ss, sess{sc, canary})
+	}
+	qUser := randUser(rng, fmt.Sprintf("U_MK%dqx", idx), false)
+	e.W.AddUser(qUser)
+	var wg sync.WaitGroup
+	var mu sync.Mutex
+	bad := ""
+	var badCall *env.Call
+	stop := make(chan struct{})
+	for g := 0; g < 2; g++ {
+		wg.Add(1)
+		go func(g int) {
+			defer wg.Done()
+			lr := rand.New(rand.NewSource(int64(idx*10 + g)))
+			for {
+				select {
+				case <-stop:
+					return
+				default:
+				}
+				if g == 0 {
+					e.Do(env.Req{Path: env.PathMetadata})
+				} else {
+					q := conformantQuery(lr, d, qUser.Username)
+					e.Do(env.Req{Method: "POST", Path: env.PathAttr, Body: q.XML(lr), CT: "text/xml"})
+				}
+			}
+		}(g)
+	}
+	var cw sync.WaitGroup
+	for g := range ss {
+		cw.Add(1)
+		go func(x sess) {
+			defer cw.Done()
+			for k := 0; k < 6; k++ {
+				call := x.sc.callback(e)
+				if call.Panic != "" || call.D.Msg == nil || !call.D.Success() {
+					continue
+				}
+				why := ""
+				if call.D.Msg.NameID != x.sc.U.Username {
+					why = fmt.Sprintf("NameID %q, user %q", call.D.Msg.NameID, x.sc.U.Username)
+				}
+				n := 0
+				for _, a := range call.D.Msg.Attributes {
+					for _, v := range a.Values {
+						n++
+						if !strings.Contains(v, x.canary) {
+							why = fmt.Sprintf("attribute %q has the value %q, which is not a value of user %q", a.Name, v, x.sc.U.Username)
+						}
+					}
+				}
+				if n == 0 && len(refAttributes(x.sc.U)) > 0 {
+					why = "the message carries no attribute value at all although the user has some"
+				}
+				mu.Lock()
+				if why != "" && bad == "" {
+					bad, badCall = why, call
+				}
+				mu.Unlock()
+			}
+		}(ss[g])
+	}
+	cw.Wait()
+	close(stop)
+	wg.Wait()
+	r.Eval(fmt.Sprintf("side_by_side|%d", idx))
+	r.Count("messages_built_while_others_were_being_built", 48)
+	if bad != "" {
+		r.Violate(core.Violation{Clause: "value_changed", Class: "side_by_side", Reason: "a Success message built while other messages were being built does not decode to the values put in: " + bad, Workload: wl, Index: idx, Observed: badCall.Describe()})
+	}
 }
